@@ -24,7 +24,7 @@ func TestMain(m *testing.M) {
 			"Query URR -> one IMMER report (and not TERMR); Deletion -> one TERMR report per existing URR; nothing else, nothing twice - whatever cause the response carries. "+
 			"non-trivial = the history contains an association added by Update PDR that is later dissolved, or a URR shared by >= 2 PDRs whose last reference disappears; distinct by history",
 		"model data plane returns one usage report per query/remove of an existing URR",
-		"not generated (ambiguous or protocol violations, counted as excluded): Update PDR without URR IEs on a PDR that has URRs; PDRs naming URRs that do not exist; touching the same URR by two report-causing IEs in one message; re-creating a URR id while a PDR still names it")
+		"not generated (ambiguous or protocol violations, counted as excluded): Update PDR without URR IEs on a PDR that has URRs; PDRs naming URRs that do not exist; touching the same URR by two report-causing PDR IEs in one message (a PDR IE and a Query URR IE may meet); re-creating a URR id while a PDR still names it")
 	vcore.Main(m)
 }
 
@@ -253,7 +253,7 @@ func gen(t *rapid.T) Case {
 		touchedP := map[uint32]bool{}
 		nr := rapid.IntRange(1, 4).Draw(t, "nrules")
 		for j := 0; j < nr; j++ {
-			switch rapid.SampledFrom([]string{"createurr", "createurr+pdr", "removeurr", "query", "queryremove", "createpdr", "removepdr", "updatepdr", "updatepdr", "updatepdr", "updatepdr-unknown", "createpdr-again"}).Draw(t, "rule") {
+			switch rapid.SampledFrom([]string{"createurr", "createurr+pdr", "removeurr", "query", "queryremove", "createpdr", "removepdr", "updatepdr", "updatepdr", "updatepdr", "updatepdr-unknown", "createpdr-again", "query-detached", "query-detached"}).Draw(t, "rule") {
 			case "createurr", "createurr+pdr":
 				u := uint32(rapid.IntRange(1, 4).Draw(t, "urr"))
 				if urr[u] || urrOp[u] || touched[u] {
@@ -280,6 +280,15 @@ func gen(t *rapid.T) Case {
 					continue
 				}
 				urrOp[u], touched[u] = true, true
+				rules = append(rules, stack.RuleOp{Verb: "query", Kind: "URR", ID: u})
+			case "query-detached":
+				// one message takes a URR's last PDR away and queries the URR: two reports are due for it, the termination report
+				// with what was measured up to the detach and the immediate report of the query
+				u := uint32(rapid.IntRange(1, 4).Draw(t, "urr"))
+				if !urr[u] || urrOp[u] || !touched[u] {
+					continue
+				}
+				urrOp[u] = true
 				rules = append(rules, stack.RuleOp{Verb: "query", Kind: "URR", ID: u})
 			case "queryremove":
 				// one message queries a URR and removes it: the removal's termination report is due once (whether an
@@ -346,6 +355,13 @@ func gen(t *rapid.T) Case {
 				delete(pdr, p)
 				touchedP[p] = true
 				rules = append(rules, stack.RuleOp{Verb: "remove", Kind: "PDR", ID: p})
+				for u := uint32(1); u <= 4; u++ {
+					// ... and asks for an immediate report of a URR the PDR measured into
+					if l[u] && urr[u] && !urrOp[u] && rapid.IntRange(0, 2).Draw(t, "query_detached") == 0 {
+						urrOp[u] = true
+						rules = append(rules, stack.RuleOp{Verb: "query", Kind: "URR", ID: u})
+					}
+				}
 			case "createpdr-again":
 				// a Create PDR for a PDR the session has: the data plane refuses it and keeps the installed rule, whose URR list
 				// therefore stays the PDR's current list, whatever list the refused request named
